@@ -120,8 +120,13 @@ static const OrcRuleEmitFunc *kRule = rule_table(std::make_index_sequence<MAX_RU
 // ---------------------------------------------------------------------------
 // plan generation
 // ---------------------------------------------------------------------------
-static const char *kExtNames[] = {"addw2", "add", "addwx", "xaddw", "ad", "subl_", "sub", "xorb2", "xo", "copyw2", "cop", "andl2",
-                                  "orw1", "addbb", "sublq", "zz", "myop", "xor", "an", "orr", "copyl_x", "addl3", "subww", "px"};
+// Names the application might choose: proper prefixes of built-in names, extensions of
+// built-in names, names that are prefixes/extensions of each other, and unrelated ones.
+// Each name is used at most once per run (drawn without replacement).
+static const char *kExtNames[] = {"add", "ad", "addus", "sub", "xor", "cop", "an", "conv", "mul", "sh", "splat", "swap", "swa", "sel",
+                                  "addw2", "addwx", "copyw2", "andl2", "orw1", "addbb", "xorb2", "subl_", "sublq", "swapwl2", "mergebwx", "absbb",
+                                  "zap", "zapb", "zapbx", "zz", "myop", "px", "vol", "volscale", "xaddw", "a"};
+static const int kNExtNames = 36;
 
 static std::vector<std::string> reg_gen(const GenArgs &ga) {
   Rng r = stream(ga.seed, ST_PLAN), d = stream(ga.seed, ST_DATA);
@@ -134,8 +139,12 @@ static std::vector<std::string> reg_gen(const GenArgs &ga) {
   int nsets = 0;
   std::vector<std::vector<std::pair<int, int>>> sets;  // per set: (kind,size) per opcode
   int nops = 6 + (int)r.below(thorough ? 40 : 22);
-  int name_cursor = (int)r.below(24);
+  std::vector<int> name_order;
+  for (int i = 0; i < kNExtNames; i++) name_order.push_back(i);
+  for (int i = kNExtNames - 1; i > 0; i--) std::swap(name_order[i], name_order[r.below(i + 1)]);
+  size_t name_cursor = 0;
   int rulesets_total = 0;
+  std::map<std::pair<int, int>, std::vector<std::string>> ruled;  // (set, opcode) -> targets that have a rule for it
   for (int i = 0; i < nops; i++) {
     int c = (int)r.below(100);
     if ((i == 0 || c < 14) && nsets < 4) {
@@ -144,10 +153,12 @@ static std::vector<std::string> reg_gen(const GenArgs &ga) {
       std::vector<std::pair<int, int>> ops;
       for (int k = 0; k < n; k++) {
         int kind = (int)r.below(K_NKINDS), size = 1 << r.below(3);
-        const char *nm = kExtNames[(name_cursor++) % 24];
-        l += strf("%s%s_%d:%s:%d", k ? "," : "", nm, nsets, kKindName[kind], size);
+        if (name_cursor >= name_order.size()) break;
+        const char *nm = kExtNames[name_order[name_cursor++]];
+        l += strf("%s%s:%s:%d", ops.empty() ? "" : ",", nm, kKindName[kind], size);
         ops.push_back({kind, size});
       }
+      if (ops.empty()) continue;
       sets.push_back(ops);
       nsets++;
       pl.push_back(l);
@@ -167,7 +178,7 @@ static std::vector<std::string> reg_gen(const GenArgs &ga) {
         std::set<int> chosen;
         for (int k = 0; k < n; k++) chosen.insert((int)r.below(sets[si].size()));
         bool first = true;
-        for (int k : chosen) { l += strf("%s%d", first ? "" : ",", k); first = false; }
+        for (int k : chosen) { l += strf("%s%d", first ? "" : ",", k); first = false; ruled[{si, k}].push_back(t); }
       }
       rulesets_total++;
       pl.push_back(l);
@@ -177,16 +188,27 @@ static std::vector<std::string> reg_gen(const GenArgs &ga) {
       pl.push_back(strf("op lookup n=%d", 1 + (int)r.below(4)));
     } else {
       static const char *tg[] = {"sse", "sse", "avx", "avx", "mmx", "emu"};
-      const char *t = tg[r.below(6)];
+      std::string t = tg[r.below(6)];
       int size = 1 << r.below(3);
       int len = 1 + (int)r.below(4);
-      std::string l = strf("op prog target=%s drop=%d size=%d insns=", t, (int)r.below(4), size);
+      // most programs are aimed at an extension opcode that has a rule somewhere, on a target that has it
+      if (!ruled.empty() && r.chance(2, 3)) {
+        auto it = ruled.begin();
+        std::advance(it, r.below(ruled.size()));
+        t = it->second[r.below(it->second.size())];
+        size = sets[it->first.first][it->first.second].second;
+      }
+      std::string l = strf("op prog target=%s drop=%d size=%d insns=", t.c_str(), r.chance(1, 2) ? 0 : (int)r.below(4), size);
       for (int k = 0; k < len; k++) {
         bool ext = nsets > 0 && r.chance(3, 5);
         if (ext) {
           // pick an extension opcode of the right size if there is one
           std::vector<std::pair<int, int>> cand;
           for (int s = 0; s < nsets; s++) for (size_t o = 0; o < sets[s].size(); o++) if (sets[s][o].second == size) cand.push_back({s, (int)o});
+          // prefer opcodes that have a rule on the chosen target
+          std::vector<std::pair<int, int>> pref;
+          for (auto &pr2 : cand) { auto it = ruled.find(pr2); if (it != ruled.end()) for (auto &tt : it->second) if (tt == t) { pref.push_back(pr2); break; } }
+          if (!pref.empty() && r.chance(3, 4)) cand = pref;
           if (!cand.empty()) { auto pr = cand[r.below(cand.size())]; l += strf("%se:%d.%d", k ? "," : "", pr.first, pr.second); continue; }
         }
         l += strf("%sb:%s", k ? "," : "", kKindName[r.below(K_NKINDS)]);
@@ -322,6 +344,7 @@ static void reg_run(const std::vector<std::string> &plan, Child &c) {
       for (auto &item : split(kv(w, "ops"), ',')) {
         auto f = split(item, ':');
         if (f.size() != 3 || next_emu >= MAX_EMU) continue;
+        if (orc_opcode_find_by_name(f[0].c_str())) { c.count("probe.name_already_taken_skipped"); continue; }  // names must be new
         ExtOp o{f[0], kind_from(f[1]), atoi(f[2].c_str()), next_emu++};
         g_emu[o.emu_id] = EmuInfo{o.kind, o.size};
         s.ops.push_back(o);
